@@ -760,6 +760,14 @@ func c11Tables(c *Ctx) {
 	sort.Slice(cts, func(i, j int) bool { return cts[i] < cts[j] })
 	for _, f := range from {
 		cases := intCases(f, isMessageTypeLoad)
+		if len(cases) == 0 {
+			// table form: `wire, known := outgoing[msg.t]` over a package-level map literal
+			for _, kv := range c.lookupTables(f) {
+				if k, ok := constant.Int64Val(kv[0]); ok && kv[0].Kind() == constant.Int {
+					cases[k] = true
+				}
+			}
+		}
 		for _, t := range cts {
 			c.R.Check(cases[t], shortFn(f)+"/case:"+typeName[t], constructed[t], "handled", "the server sends "+typeName[t]+" but "+shortFn(f)+" has no case for it: the frame is turned into an 'invalid message type' error and dropped")
 		}
@@ -779,6 +787,14 @@ func c11Tables(c *Ctx) {
 				}
 				if s, ok := an.ConstString(st.Val); ok {
 					wire[s] = append(wire[s], in)
+				}
+			}
+		}
+		if len(wire) == 0 {
+			for _, kv := range c.lookupTables(f) {
+				if kv[1].Kind() == constant.String && constant.StringVal(kv[1]) != "" {
+					w := constant.StringVal(kv[1])
+					wire[w] = append(wire[w], f.Blocks[0].Instrs[0])
 				}
 			}
 		}
@@ -807,6 +823,15 @@ func c11Tables(c *Ctx) {
 							produced[n] = true
 						}
 					}
+				}
+			}
+		}
+	}
+	for _, f := range to {
+		for _, kv := range c.lookupTables(f) {
+			if kv[1].Kind() == constant.Int {
+				if k, ok := constant.Int64Val(kv[1]); ok {
+					produced[k] = true
 				}
 			}
 		}
@@ -981,4 +1006,49 @@ func keptByGoroutine(fn *ssa.Function, p *ssa.Parameter) bool {
 		}
 	}
 	return false
+}
+
+// lookupTables: the (key, value) constant pairs of every package-level map literal that fn indexes (table form of a switch).
+func (c *Ctx) lookupTables(fn *ssa.Function) [][2]constant.Value {
+	var out [][2]constant.Value
+	tp := c.W.TPkg(pkgTransport)
+	if tp == nil {
+		return nil
+	}
+	for _, b := range fn.Blocks {
+		for _, in := range b.Instrs {
+			lk, ok := in.(*ssa.Lookup)
+			if !ok {
+				continue
+			}
+			g, ok := loadGlobal(lk.X)
+			if !ok {
+				continue
+			}
+			for _, f := range tp.Syntax {
+				ast.Inspect(f, func(n ast.Node) bool {
+					vs, ok := n.(*ast.ValueSpec)
+					if !ok || len(vs.Names) != 1 || vs.Names[0].Name != g.Name() || len(vs.Values) != 1 {
+						return true
+					}
+					cl, ok := vs.Values[0].(*ast.CompositeLit)
+					if !ok {
+						return true
+					}
+					for _, e := range cl.Elts {
+						kv, ok := e.(*ast.KeyValueExpr)
+						if !ok {
+							continue
+						}
+						k, v := tp.TypesInfo.Types[kv.Key].Value, tp.TypesInfo.Types[kv.Value].Value
+						if k != nil && v != nil {
+							out = append(out, [2]constant.Value{k, v})
+						}
+					}
+					return true
+				})
+			}
+		}
+	}
+	return out
 }
